@@ -316,27 +316,115 @@ def run(ctx: Ctx):
             okc = bool(comp) and norm(comp[-1].generators[0].iter) == f"{gs}.chance_alignments" and sargs(ch[0])[2] == norm(comp[-1].generators[0].target)
         ctx.check(okc, "R-C12-3", g, subs[0] if subs else None, f"observed job on best_alignment, one chance job per chance alignment, all with category {catexp}",
                   bad_detail=f"{qn}: jobs are not (best_alignment, {catexp}) + one per chance alignment with the same category", key=f"{qn}:jobs")
+        # the value returned on every path, in terms of OBS = <observed job>.result() and EXP = mean of the chance jobs' results:
+        # the body is run symbolically (locals substituted, `with` entered, tuple assignments split); a test on OBS == 0 splits the two
+        # scenarios of the property, `x is None` is decided when x is a literal None / a computed number, any other test forks
+        import copy as _copy
         forms = [r for r in walk_no_nested(g.node) if isinstance(r, ast.Return) and isinstance(r.value, ast.BinOp)]
-        okf = False
-        if len(forms) == 1:
-            # roles: the local bound to <observed job>.result() and the one bound to the mean over the chance jobs' results
-            obs_n = [norm(s_.targets[0]) for s_ in walk_no_nested(g.node) if isinstance(s_, ast.Assign) and isinstance(s_.targets[0], ast.Name)
-                     and isinstance(s_.value, ast.Call) and isinstance(s_.value.func, ast.Attribute) and s_.value.func.attr == "result" and not s_.value.args]
-            exp_n = [norm(s_.targets[0]) for s_ in walk_no_nested(g.node) if isinstance(s_, ast.Assign) and isinstance(s_.targets[0], ast.Name)
-                     and "np.mean" in norm(s_.value) and ".result()" in norm(s_.value)]
-            okf = False
-            if len(obs_n) == 1 and len(exp_n) == 1:
-                try:
-                    ex = Extractor({obs_n[0]: Rat.var("obs"), exp_n[0]: Rat.var("exp")})
-                    okf = ex.ev(forms[0].value) == Rat.const(1) - Rat.var("obs") / Rat.var("exp")
-                except Unsupported:
-                    okf = False
-                od = assigned_value(g.node, obs_n[0])
-                okf = okf and len(od) == 1 and obs and isinstance(od[0].func.value, ast.Name) and \
-                    any(v is obs[0] for v in assigned_value(g.node, od[0].func.value.id))
-            gcfg = CFG(g.node)
-            gd = [i for i in walk_no_nested(g.node) if isinstance(i, ast.If) and obs_n and norm(i.test) == f"{obs_n[0]} == 0" and
-                  isinstance(i.body[0], ast.Return) and getattr(i.body[0].value, "value", None) in (1, 1.0)]
-            okf = okf and len(gd) == 1 and gcfg.dominates(gcfg.node_of(gd[0]), gcfg.node_of(forms[0]))
+
+        class _Subst(ast.NodeTransformer):
+            def __init__(self, env):
+                self.env = env
+
+            def visit_Name(self, n):
+                if isinstance(n.ctx, ast.Load) and n.id in self.env:
+                    return _copy.deepcopy(self.env[n.id])
+                return n
+
+        class _Shape(Exception):
+            pass
+        obs_call = obs[0] if len(obs) == 1 else None
+
+        def is_obs(e, env) -> bool:
+            e2 = _Subst(env).visit(_copy.deepcopy(e))
+            return isinstance(e2, ast.Call) and isinstance(e2.func, ast.Attribute) and e2.func.attr == "result" and not e2.args and obs_call is not None and \
+                norm(e2.func.value) == norm(obs_call)
+
+        def is_exp(e, env) -> bool:
+            t = norm(_Subst(env).visit(_copy.deepcopy(e)))
+            return ch and "np.mean" in t and ".result()" in t and norm(ch[0]) in t
+
+        paths = []       # (obs_zero: True/False/None, extra conditions, returned AST after substitution, node)
+
+        def run(stmts, env, obs_zero, conds) -> bool:
+            """True when every path through `stmts` returned"""
+            for k_, st in enumerate(stmts):
+                if isinstance(st, ast.Return):
+                    paths.append((obs_zero, list(conds), _Subst(env).visit(_copy.deepcopy(st.value)) if st.value is not None else None, st))
+                    return True
+                if isinstance(st, ast.With):
+                    for it in st.items:
+                        if it.optional_vars is not None and isinstance(it.optional_vars, ast.Name):
+                            env.pop(it.optional_vars.id, None)
+                    return run(list(st.body) + list(stmts[k_ + 1:]), env, obs_zero, conds)      # a with block only scopes: its body continues the sequence
+                elif isinstance(st, ast.Assign) and len(st.targets) == 1 and isinstance(st.targets[0], ast.Name):
+                    env[st.targets[0].id] = _Subst(env).visit(_copy.deepcopy(st.value))
+                elif isinstance(st, ast.Assign) and len(st.targets) == 1 and isinstance(st.targets[0], ast.Tuple) and isinstance(st.value, ast.Tuple) and \
+                        len(st.targets[0].elts) == len(st.value.elts) and all(isinstance(t, ast.Name) for t in st.targets[0].elts):
+                    vals = [_Subst(env).visit(_copy.deepcopy(v)) for v in st.value.elts]
+                    for t, v in zip(st.targets[0].elts, vals):
+                        env[t.id] = v
+                elif isinstance(st, ast.If):
+                    t = st.test
+                    decided = None
+                    if isinstance(t, ast.Compare) and len(t.ops) == 1 and isinstance(t.ops[0], (ast.Eq, ast.NotEq)) and A_zero(t.comparators[0]) and is_obs(t.left, env):
+                        if obs_zero is None:
+                            rest = stmts[k_ + 1:]
+                            r1 = run([st] + rest, dict(env), True, conds)
+                            r2 = run([st] + rest, dict(env), False, conds)
+                            return r1 and r2
+                        decided = obs_zero if isinstance(t.ops[0], ast.Eq) else (not obs_zero)
+                    elif isinstance(t, ast.Compare) and len(t.ops) == 1 and isinstance(t.ops[0], (ast.Is, ast.IsNot)) and \
+                            isinstance(t.comparators[0], ast.Constant) and t.comparators[0].value is None:
+                        v = _Subst(env).visit(_copy.deepcopy(t.left))
+                        if isinstance(v, ast.Constant) and v.value is None:
+                            decided = isinstance(t.ops[0], ast.Is)
+                        elif isinstance(v, (ast.Call, ast.BinOp)) or (isinstance(v, ast.Constant) and v.value is not None):
+                            decided = isinstance(t.ops[0], ast.IsNot)
+                    if decided is None:
+                        rest = stmts[k_ + 1:]
+                        tt = norm(_Subst(env).visit(_copy.deepcopy(t)))
+                        e1, e2 = dict(env), dict(env)
+                        r1 = run(list(st.body) + rest, e1, obs_zero, conds + [(tt, True)])
+                        r2 = run(list(st.orelse) + rest, e2, obs_zero, conds + [(tt, False)])
+                        return r1 and r2
+                    return run(list(st.body if decided else st.orelse) + list(stmts[k_ + 1:]), env, obs_zero, conds)
+                elif isinstance(st, (ast.Expr, ast.Pass, ast.Import, ast.ImportFrom, ast.Assert)):
+                    continue
+                else:
+                    raise _Shape(norm(st)[:80])
+            return False
+
+        def A_zero(e) -> bool:
+            return isinstance(e, ast.Constant) and e.value in (0, 0.0) and not isinstance(e.value, bool)
+        okf = None
+        why = ""
+        try:
+            all_ret = run(body_stmts(g.node), {}, None, [])
+            if not all_ret or not paths:
+                okf, why = False, "a path falls off the end without returning a value"
+            elif not any(p_[0] is True for p_ in paths) or not any(p_[0] is False for p_ in paths):
+                okf, why = False, "no test of the observed disorder against 0 separates the two cases"
+            else:
+                okf = True
+                for oz, conds_, val, node_ in paths:
+                    if oz is True:
+                        if not (isinstance(val, ast.Constant) and val.value in (1, 1.0) and not isinstance(val.value, bool)):
+                            okf, why = False, f"with a null observed disorder the value is `{norm(val) if val is not None else None}`, not 1"
+                    else:
+                        if isinstance(val, ast.Constant) and val.value in (0, 0.0) and any(c_[1] is True and c_[0].endswith("== 0") for c_ in conds_):
+                            continue         # the documented gamma-cat convention: expected disorder 0 -> 0
+                        good = False
+                        if isinstance(val, ast.BinOp) and isinstance(val.op, ast.Sub) and isinstance(val.left, ast.Constant) and val.left.value == 1 and \
+                                isinstance(val.right, ast.BinOp) and isinstance(val.right.op, ast.Div):
+                            good = is_obs(val.right.left, {}) and is_exp(val.right.right, {})
+                        if not good:
+                            okf, why = False, f"with a non-null observed disorder the value is `{norm(val) if val is not None else None}`"
+        except _Shape as e:
+            okf = None
+            why = str(e)
+        if okf is None:
+            ctx.undecided("R-C12-3", g, None, f"{qn}: body contains `{why}`: shape not recognised (not a verdict)", key=f"{qn}:formula")
+            continue
         ctx.check(okf, "R-C12-3", g, forms[0] if forms else None, f"{qn} = 1 - observed / mean(chance), observed == 0 -> 1 first",
-                  bad_detail=f"{qn} is not 1 - observed/mean(chance categorical disorders) behind the observed == 0 guard", key=f"{qn}:formula")
+                  bad_detail=f"{qn} is not 1 - observed/mean(chance categorical disorders) behind the observed == 0 guard: {why}", key=f"{qn}:formula")
